@@ -3,6 +3,8 @@ package main
 import (
 	"fmt"
 	"math/rand"
+	"os"
+	"runtime"
 	"strings"
 
 	"verif/harness/internal/hx"
@@ -361,6 +363,12 @@ func runGSync(f *hx.Flags) {
 			}
 		}
 		r.Res.Extra["l3_search"] = fmt.Sprintf("lock-step broke without a monitor hit: widened schedule enumeration (<=3 preemptions, %d schedules) and %d more random schedules", lim, nrand*10)
+	}
+	if os.Getenv("VERIF_MEMSTAT") != "" {
+		var ms runtime.MemStats
+		runtime.GC()
+		runtime.ReadMemStats(&ms)
+		fmt.Fprintf(os.Stderr, "goroutines=%d heap=%dMB sys=%dMB stack=%dMB\n", runtime.NumGoroutine(), ms.HeapAlloc>>20, ms.Sys>>20, ms.StackSys>>20)
 	}
 	r.Finish()
 }
